@@ -15,8 +15,11 @@ a list of boxes is joined by `;`, the empty list is `.`.  Keys of a box must be 
   `C30 enc <ty> <value tokens…>`         → hex of `toString(value)` or `!raised <Exc>`
   `C30 dec <ty> <hex>`                   → value tokens of `fromString(bytes)` or `!raised <Exc>`
   `C30 unmodelled`                       → `unmodelled` (argument types covered by the oracle only)
-Types: `int str uni bool L<ty>`.  Values: `i<decimal>`, `s<hex>`, `u<cp>,<cp>…` (`u` alone = empty),
-`b0`/`b1`, lists `[ v v … ]` as separate tokens.
+Types: `int str uni bool dec dt L<ty> A(<namehex><?|!><ty>,…)` (AmpList schema; `?` = optional argument).
+Values: `i<decimal>`, `s<hex>`, `u<cp>,<cp>…` (`u` alone = empty), `b0`/`b1`,
+`t<y>,<mo>,<d>,<h>,<mi>,<s>,<µs>,<utcoffset µs | n>` (a datetime by fields), `dF<neg>,<coeff>,<exp>` /
+`dI<neg>` / `dN<neg>,<signaling>,<payload>` (a Decimal by `as_tuple()`), lists `[ v v … ]` and AmpList values
+`[ { f f … } { … } ]` (fields in schema order, `N` = None) as separate tokens.
 -/
 namespace Twisted.Drv.C30
 open Twisted.Amp.Box Twisted.Amp.Args
@@ -80,6 +83,10 @@ def argErrName : ArgErr → String
   | .unicodeEncodeError => "UnicodeEncodeError"
   | .unicodeDecodeError => "UnicodeDecodeError"
   | .structError => "error"
+  | .keyError => "KeyError"
+  | .tooLong => "TooLong"
+  | .attributeError => "AttributeError"
+  | .invalidOperation => "InvalidOperation"
 
 def decSizes (s : String) : Option (List Nat) :=
   if s = "-" then some [] else (s.splitOn ",").mapM String.toNat?
@@ -93,15 +100,44 @@ def showProto (p : Proto Core) : String :=
 
 /-! argument values -/
 
+/-- `Float` and `os.path.abspath` are parameters of the model; the driver never runs them (`float` and
+    `path` are not driver types), this stand-in only fixes the carriers -/
+def drvCodec : Ext := ⟨⟨Bytes, id, some⟩, id⟩
+
+abbrev DVal := Val drvCodec
+abbrev DRow := Row drvCodec
+
+/-- type syntax: `int str uni bool dec dt`, `L<ty>`, `A(<namehex><?|!><ty>,…)` (`?` = optional) -/
+def parseTy : Nat → List Char → Option (Ty × List Char)
+  | 0, _ => none
+  | _ + 1, 'i' :: 'n' :: 't' :: r => some (.int, r)
+  | _ + 1, 's' :: 't' :: 'r' :: r => some (.str, r)
+  | _ + 1, 'u' :: 'n' :: 'i' :: r => some (.uni, r)
+  | _ + 1, 'b' :: 'o' :: 'o' :: 'l' :: r => some (.bool, r)
+  | _ + 1, 'd' :: 'e' :: 'c' :: r => some (.dec, r)
+  | _ + 1, 'd' :: 't' :: r => some (.dt, r)
+  | fuel + 1, 'L' :: r => (parseTy fuel r).map fun (t, r') => (.list t, r')
+  | fuel + 1, 'A' :: '(' :: r => (parseFields fuel r).map fun (s, r') => (.amplist s, r')
+  | _ + 1, _ => none
+where
+  parseFields : Nat → List Char → Option (Schema × List Char)
+  | 0, _ => none
+  | _ + 1, ')' :: r => some (.nil, r)
+  | fuel + 1, cs =>
+    let nameCs := cs.takeWhile fun c => c != '?' && c != '!'
+    match cs.dropWhile (fun c => c != '?' && c != '!') with
+    | m :: r =>
+      match decHex (String.ofList nameCs), parseTy fuel r with
+      | some name, some (t, r') =>
+        let r'' := match r' with | ',' :: x => x | x => x
+        (parseFields fuel r'').map fun (s, rest) => (.cons name (m == '?') t s, rest)
+      | _, _ => none
+    | [] => none
+
 def decTy (s : String) : Option Ty :=
-  let rec go : List Char → Option Ty
-    | ['i', 'n', 't'] => some .int
-    | ['s', 't', 'r'] => some .str
-    | ['u', 'n', 'i'] => some .uni
-    | ['b', 'o', 'o', 'l'] => some .bool
-    | 'L' :: rest => (go rest).map Ty.list
-    | _ => none
-  go s.toList
+  match parseTy (s.length + 1) s.toList with
+  | some (t, []) => if t.supported then some t else none
+  | _ => none
 
 def decCps (s : String) : Option (List Nat) :=
   if s.isEmpty then some [] else (s.splitOn ",").mapM String.toNat?
@@ -115,20 +151,106 @@ def parseMany {α : Type} (p : List String → Option (α × List String)) :
     let (xs, rest') ← parseMany p fuel rest
     pure (x :: xs, rest')
 
-def parseVal : (t : Ty) → List String → Option (Val t × List String)
+def decBool (s : String) : Option Bool := if s = "1" then some true else if s = "0" then some false else none
+
+/-- `t<y>,<mo>,<d>,<h>,<mi>,<s>,<us>,<off µs | n>` -/
+def decDT (s : String) : Option DT :=
+  match s.splitOn "," with
+  | [y, mo, d, h, mi, se, us, off] => do
+    let y ← y.toNat?
+    let mo ← mo.toNat?
+    let d ← d.toNat?
+    let h ← h.toNat?
+    let mi ← mi.toNat?
+    let se ← se.toNat?
+    let us ← us.toNat?
+    let off ← if off = "n" then some none else off.toInt?.map some
+    let v : DT := ⟨y, mo, d, h, mi, se, us, off⟩
+    if decide v.validFields then some v else none
+  | _ => none
+
+def encDT (v : DT) : String :=
+  ",".intercalate [ToString.toString v.year, ToString.toString v.month, ToString.toString v.day, ToString.toString v.hour,
+    ToString.toString v.minute, ToString.toString v.second, ToString.toString v.micro,
+    match v.off with | none => "n" | some o => ToString.toString o]
+
+/-- `dF<neg>,<coeff>,<exp>` / `dI<neg>` / `dN<neg>,<signaling>,<payload>` -/
+def decDec (s : String) : Option Dec :=
+  match s.toList with
+  | 'F' :: r =>
+    match (String.ofList r).splitOn "," with
+    | [n, c, e] => do
+      let n ← decBool n
+      let c ← c.toNat?
+      let e ← e.toInt?
+      pure (.fin n c e)
+    | _ => none
+  | 'I' :: r => (decBool (String.ofList r)).map Dec.inf
+  | 'N' :: r =>
+    match (String.ofList r).splitOn "," with
+    | [n, sg, p] => do
+      let n ← decBool n
+      let sg ← decBool sg
+      let p ← p.toNat?
+      pure (.nan n sg p)
+    | _ => none
+  | _ => none
+
+def b01 (b : Bool) : String := if b then "1" else "0"
+
+def encDec : Dec → String
+  | .fin n c e => "F" ++ b01 n ++ "," ++ ToString.toString c ++ "," ++ ToString.toString e
+  | .inf n => "I" ++ b01 n
+  | .nan n sg p => "N" ++ b01 n ++ "," ++ b01 sg ++ "," ++ ToString.toString p
+
+mutual
+def parseVal : (t : Ty) → List String → Option (DVal t × List String)
   | .int, tok :: rest => if tok.startsWith "i" then (tok.drop 1).toString.toInt?.map (·, rest) else none
   | .str, tok :: rest => if tok.startsWith "s" then (decHex (tok.drop 1).toString).map (·, rest) else none
   | .uni, tok :: rest => if tok.startsWith "u" then (decCps (tok.drop 1).toString).map (·, rest) else none
   | .bool, tok :: rest => if tok = "b1" then some (true, rest) else if tok = "b0" then some (false, rest) else none
+  | .dec, tok :: rest => if tok.startsWith "d" then (decDec (tok.drop 1).toString).map (·, rest) else none
+  | .dt, tok :: rest => if tok.startsWith "t" then (decDT (tok.drop 1).toString).map (·, rest) else none
   | .list t, "[" :: rest => parseMany (parseVal t) (rest.length + 1) rest
+  | .amplist s, "[" :: rest => parseMany (parseRowTok s) (rest.length + 1) rest
   | _, _ => none
+/-- a row is `{ <field> … }`, the fields in schema order, `N` = `None` (optional fields only) -/
+def parseRowTok : (s : Schema) → List String → Option (DRow s × List String)
+  | s, "{" :: rest => parseRow s rest
+  | _, _ => none
+def parseRow : (s : Schema) → List String → Option (DRow s × List String)
+  | .nil, "}" :: rest => some ((), rest)
+  | .nil, _ => none
+  | .cons _ true t s, toks =>
+    match toks with
+    | "N" :: rest => (parseRow s rest).map fun (r, rest') => ((none, r), rest')
+    | _ => match parseVal t toks with
+      | some (v, rest) => (parseRow s rest).map fun (r, rest') => ((some v, r), rest')
+      | none => none
+  | .cons _ false t s, toks =>
+    match parseVal t toks with
+    | some (v, rest) => (parseRow s rest).map fun (r, rest') => ((v, r), rest')
+    | none => none
+end
 
-def showVal : (t : Ty) → Val t → List String
+mutual
+def showVal : (t : Ty) → DVal t → List String
   | .int, (v : Int) => ["i" ++ ToString.toString v]
   | .str, (v : Bytes) => ["s" ++ encHex v]
   | .uni, (v : List Nat) => ["u" ++ ",".intercalate (v.map ToString.toString)]
   | .bool, (v : Bool) => [if v then "b1" else "b0"]
-  | .list t, (v : List (Val t)) => ["["] ++ (v.map (showVal t)).flatten ++ ["]"]
+  | .float, _ => ["?float"]
+  | .dec, (v : Dec) => ["d" ++ encDec v]
+  | .dt, (v : DT) => ["t" ++ encDT v]
+  | .path, _ => ["?path"]
+  | .list t, (v : List (DVal t)) => ["["] ++ (v.map (showVal t)).flatten ++ ["]"]
+  | .amplist s, (v : List (DRow s)) => ["["] ++ (v.map fun r => ["{"] ++ showRow s r ++ ["}"]).flatten ++ ["]"]
+def showRow : (s : Schema) → DRow s → List String
+  | .nil, _ => []
+  | .cons _ true _ s, (none, r) => "N" :: showRow s r
+  | .cons _ true t s, (some v, r) => showVal t v ++ showRow s r
+  | .cons _ false t s, (v, r) => showVal t v ++ showRow s r
+end
 
 def handle (args : List String) : String :=
   match args with
@@ -153,14 +275,14 @@ def handle (args : List String) : String :=
   | "enc" :: ty :: toks =>
     match decTy ty with
     | some t => match parseVal t toks with
-      | some (v, []) => match Twisted.Amp.Args.toString t v with
+      | some (v, []) => match Twisted.Amp.Args.toString drvCodec t v with
         | .ok w => encHexTok w
         | .error e => "!raised " ++ argErrName e
       | _ => "bad-op"
     | none => "bad-op"
   | ["dec", ty, h] =>
     match decTy ty, decHexTok h with
-    | some t, some s => match Twisted.Amp.Args.fromString t s with
+    | some t, some s => match Twisted.Amp.Args.fromString drvCodec t s with
       | .ok v => " ".intercalate (showVal t v)
       | .error e => "!raised " ++ argErrName e
     | _, _ => "bad-op"
